@@ -200,7 +200,11 @@ def run_harness(job):
         if cfg["dual_paths"] and not spec.get("no_dual"):
             n = min(cfg["dual_paths"], len(sigs))
             ex2, sigs2, _ = explore(500001, n, False)
-            if sigs2[:n] != sigs[:n]:
+            def _norm(sg):
+                # verdicts that timed out are not comparable between runs
+                return (sg[0], sg[1], tuple(c for c, v in sg[2]), sg[3])
+            unk = any(v == "unknown" for sg in sigs[:n] + sigs2[:n] for c, v in sg[2])
+            if (sigs2[:n] != sigs[:n]) if not unk else ([_norm(x) for x in sigs2[:n]] != [_norm(x) for x in sigs[:n]]):
                 out["errors"].append("tag leak: exploration differs between tag bases (first %d paths)" % n)
             out["queries"] += ex2.queries
             out["solver_s"] = round(out["solver_s"] + ex2.solver_time, 3)
@@ -321,6 +325,11 @@ def main(argv=None):
                 if args.v:
                     print("  done %-50s paths=%d q=%d unk=%d cand=%d %.1fs" % (r["name"], r["paths"], r["queries"], r["q_unknown"], len(r["candidates"]), r["wall_s"]), flush=True)
     byname = {s["name"]: s for s in specs}
+    rdir = os.path.join(VERIF, "replays", prop_id)
+    if os.path.isdir(rdir) and not args.only:
+        for fn_ in os.listdir(rdir):
+            if fn_.endswith(".json"):
+                os.remove(os.path.join(rdir, fn_))
     tol = getattr(mod, "TOL", (1e-6, 1e-9))
     known = load_known()
     harness_errors = []
